@@ -29,6 +29,19 @@ class AObj:
         return '<%s %r>' % (self.oid, self.attrs)
 
 
+class Ref:
+    """Abstract pointer to a storage cell: (container, key) - a list slot, an attribute of an object, a local."""
+
+    def __init__(self, box, key):
+        self.box, self.key = box, key
+
+    def get(self):
+        return self.box[self.key]
+
+    def set(self, v):
+        self.box[self.key] = v
+
+
 class Raised(Exception):
     def __init__(self, what, loc):
         Exception.__init__(self, what)
@@ -68,6 +81,8 @@ class AEval:
         if params and params[0] == 'self' and len(args) == len(params) - 1:
             env['self'] = recv if recv is not None else AObj({'debug': False})
             params = params[1:]
+        elif recv is not None:
+            env['self'] = recv          # C++ member function: `this`
         if len(params) != len(args):
             raise AnalysisError('abstract evaluation: %s takes %d arguments, %d given' % (qname, len(params), len(args)))
         env.update(dict(zip(params, args)))
@@ -164,6 +179,13 @@ class AEval:
         elif tgt.k == 'init' and tgt.a[0] in ('tuple', 'list'):
             for t, x in zip(tgt.a[1], v):
                 self.store(t, x, env, depth)
+        elif tgt.k == 'deref':
+            p = self.ev(tgt.a[0], env, depth)
+            if not isinstance(p, Ref):
+                raise AnalysisError('abstract evaluation: store through %r at %s' % (p, tgt.loc))
+            p.set(v)
+        elif tgt.k == 'cast':
+            self.store(tgt.a[2], v, env, depth)
         else:
             raise AnalysisError('abstract evaluation: store to %s at %s' % (show(tgt), tgt.loc))
 
@@ -260,6 +282,26 @@ class AEval:
             return self.ev(a[1], env, depth) if self.truth(self.ev(a[0], env, depth)) else self.ev(a[2], env, depth)
         if k == 'cast':
             return self.ev(a[2], env, depth)
+        if k == 'ptrcast':
+            return self.ev(a[1], env, depth)
+        if k == 'addr':
+            t = a[0]
+            if t.k == 'index':
+                return Ref(self.ev(t.a[0], env, depth), self.ev(t.a[1], env, depth))
+            if t.k == 'field':
+                o = self.ev(t.a[0], env, depth)
+                if isinstance(o, AObj):
+                    return Ref(o.attrs, t.a[1])
+            if t.k == 'var' and t.a[0] in env:
+                return Ref(env, t.a[0])
+            raise AnalysisError('abstract evaluation: address of %s at %s' % (show(t), e.loc))
+        if k == 'deref':
+            p = self.ev(a[0], env, depth)
+            if isinstance(p, Ref):
+                return p.get()
+            if isinstance(p, AObj):
+                return p            # *ptr where the abstraction holds the object itself
+            raise AnalysisError('abstract evaluation: dereference of %r at %s' % (p, e.loc))
         if k == 'init':
             if a[0] == 'dict':
                 d = {}
